@@ -10,6 +10,15 @@ impl SrtlaConnection {
     pub fn register_packet(&mut self, seq: i32, send_time_ms: u64) {
         self.packet_log.insert(seq, send_time_ms);
         self.in_flight_packets = self.packet_log.len() as i32;
+        // A packet (re)sent at or below the cumulative-ACK high-water mark is
+        // invisible to `handle_srt_ack`: the duplicate check skips ACKs up to
+        // the mark and the targeted-removal fast path only walks the range
+        // above it, so the slot would stay in flight until some later ACK
+        // happens to take the `retain` path. Pull the mark back below the
+        // packet so the next cumulative ACK covers it again.
+        if seq <= self.highest_acked_seq {
+            self.highest_acked_seq = seq.saturating_sub(1);
+        }
     }
 
     /// Handle SRT cumulative ACK - clears all packets with seq <= ack.
